@@ -11,6 +11,7 @@ pub struct VerifXmlTb<Handle> {
     pub namespace_stack: String,
     pub current_namespace: String,
     pub phase: String,
+    pub doctype_appended: bool,
 }
 
 impl<Handle, Sink> XmlTreeBuilder<Handle, Sink>
@@ -28,6 +29,7 @@ where
             namespace_stack,
             current_namespace,
             phase,
+            doctype_appended,
         } = self;
         VerifXmlTb {
             doc_handle: doc_handle.clone(),
@@ -36,6 +38,7 @@ where
             namespace_stack: format!("{:?}", namespace_stack.borrow()),
             current_namespace: format!("{:?}", current_namespace.borrow()),
             phase: format!("{:?}", phase.get()),
+            doctype_appended: doctype_appended.get(),
         }
     }
 }
